@@ -34,7 +34,8 @@ def gen_script(rnd):
         for _ in range(rnd.randint(0, 25)):
             r = rnd.random()
             if r < 0.7:
-                ops.append(["send", rnd.choice(S.KINDS), rnd.choice(POLS), "inline"])
+                ops.append(["send", rnd.choice(S.KINDS), rnd.choice(POLS),
+                            rnd.choice(["inline", "inline", "hdr"])])
             else:
                 ops.append(["adv", rnd.choice([0.1, 0.5, 0.49, 1.0, 1.01, 3, 29, 31, 60, 121])])
         ops.append(["net_default", "accept", 0.0])
@@ -68,8 +69,13 @@ def directed():
         out.append(ops)
     # not open
     out.append([["close"], ["send", "zone_ctrl", "idem", "inline"],
-                ["send", "ac_ctrl", "long", "inline"], ["open"], ["adv", 1.0],
-                ["send", "quick_timer", "idem", "inline"]])
+                ["send", "ac_ctrl", "long", "hdr"], ["open"], ["adv", 1.0],
+                ["send", "quick_timer", "idem", "hdr"]])
+    # overflow through either entry point leaves the held ones untouched
+    for mode in ("inline", "hdr"):
+        out.append([["net_default", "refuse", 0.0]]
+                   + [["send", S.KINDS[i % 3], "long", mode] for i in range(13)]
+                   + [["net_default", "accept", 0.0], ["adv", 2.5], ["q"]])
     out.append([["net_default", "refuse", 0.0], ["send", "zone_ctrl", "long", "inline"],
                 ["close"], ["send", "ac_ctrl", "long", "inline"],
                 ["net_default", "accept", 0.0], ["open"], ["adv", 3.0]])
